@@ -548,7 +548,11 @@ impl Scenario for OdbRepack {
         }
         out.into_iter().map(|c| serde_json::to_value(c).unwrap()).collect()
     }
-    fn classify_death(&self, how: &str, _w: &Value, _p: &str) -> Option<crate::driver::Violation> {
+    fn classify_death(&self, how: &str, w: &Value, _p: &str) -> Option<crate::driver::Violation> {
+        // with fewer slots than index files the slot search can retry forever: one of the faces of the slots-short finding
+        if w["slots_extra"].as_i64().map_or(false, |s| s < 0) && (how == "SIGXCPU" || how == "SIGABRT") {
+            return Some(crate::driver::Violation { property: P.into(), sig: format!("odb slots-short misbehaviour | death {how}"), detail: "the process did not survive a lookup with too few slots (endless retry or assertion)".into() });
+        }
         if how == "SIGXCPU" {
             return Some(crate::driver::Violation { property: P.into(), sig: "odb cpu-hang".into(), detail: "a lookup never returned (CPU limit)".into() });
         }
